@@ -137,6 +137,17 @@ for path in sys.argv[2:]:
     except Exception as exc:
         rec["pe"] = "raises:" + type(exc).__name__
     try:
+        # sub-schemas parsed one by one (each parse numbers its classes on its own, so equally titled
+        # classes keep one name) and serialized together
+        from statham.schema.elements import Array, Element
+        whole = materialize(RefDict.from_uri(path + "#/"), context_labeller=title_labeller())
+        parts = [parse_element(sub) for sub in (whole.get("properties") or {}).values() if isinstance(sub, dict)]
+        joined = serialize_json(Array(parts) if parts else Element())
+        rec["asm"] = hashlib.sha256(json.dumps(joined, default=repr).encode()).hexdigest()
+        rec["asm_same_names"] = len({c.__name__ for c in get_object_classes(*parts)}) < len(get_object_classes(*parts))
+    except Exception as exc:
+        rec["asm"] = "raises:" + type(exc).__name__
+    try:
         elements = parse(materialize(RefDict.from_uri(path + "#/"), context_labeller=title_labeller()))
         doc = serialize_json(*elements)
         rec["json"] = hashlib.sha256(json.dumps(doc, default=repr).encode()).hexdigest()
@@ -216,7 +227,9 @@ def run_shard(ctx):
             ctx.nontrivial(canon(doc["files"]))
         if first.get("numbered"):
             ctx.count("numbered_class_docs")
-        for field in ("py", "json", "names", "pe"):
+        if first.get("asm_same_names"):
+            ctx.count("assembled.same_named_classes")
+        for field in ("py", "json", "names", "pe", "asm"):
             outputs = {}
             for label, rec in recs.items():
                 outputs.setdefault(json.dumps(rec.get(field)), []).append(label)
